@@ -114,18 +114,18 @@ def judge(case, val, out, f3=None):
         # pure rotation about the normal: row/column nd is the unit vector
         e = np.zeros(3)
         e[nd] = 1.0
-        if not np.allclose(R[nd, :], e, atol=1e-12) or not np.allclose(R[:, nd], e, atol=1e-12):
+        if not np.allclose(R[nd, :], e, rtol=0, atol=1e-12) or not np.allclose(R[:, nd], e, rtol=0, atol=1e-12):
             return _sv("orientation of pose %d is not a pure rotation about the plane normal" % k)
-        if not np.allclose(R.T @ R, np.eye(3), atol=1e-9) or abs(np.linalg.det(R) - 1) > 1e-9:
+        if not np.allclose(R.T @ R, np.eye(3), rtol=0, atol=1e-9) or abs(np.linalg.det(R) - 1) > 1e-9:
             return _sv("pose %d is not a valid rigid-body pose" % k)
-        if not np.allclose(U(out["pos"][k], 3), a[:3, 3], atol=0) :
+        if not np.array_equal(U(out["pos"][k], 3), a[:3, 3]):
             return _sv("positions view of pose %d differs from its matrix after projection" % k)
         from harness.props.c08 import qmat_py
-        if not np.allclose(qmat_py(U(out["quat"][k], 4)), R, atol=1e-9):
+        if not np.allclose(qmat_py(U(out["quat"][k], 4)), R, rtol=0, atol=1e-9):
             return _sv("quaternion view of pose %d does not describe the projected orientation" % k)
     if case.get("planar"):
         for k, (b, a) in enumerate(zip(before, after)):
-            if not np.allclose(a, b, atol=1e-9):
+            if not np.allclose(a[:3, :3], b[:3, :3], rtol=0, atol=1e-9) or not np.array_equal(a[:, 3], b[:, 3]):
                 if plane == "xz" and b[0, 0] < -1e-9:
                     if f3 is not None:
                         f3.append(k)   # finding F3 (known): XZ projection reflects headings beyond +-90 degrees
@@ -157,6 +157,15 @@ def gen(ctx):
         hs = list(rng.uniform(-math.pi, math.pi, 40)) + [math.pi / 2, -math.pi / 2, math.pi, 0.0]
         cases.append({"kind": "planar", "planar": True, "plane": plane,
                       "poses": [H(planar_pose(plane, h, rng.normal(size=3) * 100)) for h in hs]})
+    for plane in ("xy", "xz", "yz"):
+        # densely sampled, slowly turning planar motion (a few micro-radians per pose, heading away from multiples of 90 deg)
+        for h0, dh in ((0.6, 2e-6), (-1.1, 5e-7)):
+            poses = [planar_pose(plane, h0 + dh * k, [0.01 * k, 0.02 * k, -0.01 * k]) for k in range(60)]
+            cases.append({"kind": "planar", "planar": True, "plane": plane, "poses": [H(p) for p in poses], "from_quat": dh < 1e-6})
+        # planar poses whose in-plane coordinates are tiny but not zero (nanometres down to subnormal numbers)
+        poses = [planar_pose(plane, 0.3 * k - 1.0, np.array([1.0, -2.0, 3.0]) * m)
+                 for k, m in enumerate([1e-7, 1e-9, 1e-12, 1e-30, 1e-200, 5e-324, 1e-310])]
+        cases.append({"kind": "planar", "planar": True, "plane": plane, "poses": [H(p) for p in poses]})
     for i in range(ctx.n(90, 500)):
         n = int(rng.integers(1, 30))
         poses = []
